@@ -138,8 +138,8 @@ fn heads_for(d: u8) -> Vec<char> {
 
 fn line_chars_for(d: u8) -> Vec<char> {
     match d % 4 {
-        0 => vec!['-', '─'],
-        2 => vec!['|', '│'],
+        0 => vec!['-', '─', '~', '┄'],
+        2 => vec!['|', '│', '╎', '┊'],
         1 => vec!['\\'],
         _ => vec!['/'],
     }
@@ -437,6 +437,19 @@ impl Prop for C14 {
                     }
                 }
             }),
+            Scope::new("bullets-on-dashed", "bullet x the four axis directions x {end, mid-line} x length 1..6 x every line character of the direction incl. the dashed ones (~ ┄ ╎ ┊)", |f| {
+                for b in 0..3 {
+                    for d in [0u8, 2, 4, 6] {
+                        for mid in 0..2 {
+                            for l in 1..=6i64 {
+                                for li in 0..line_chars_for(d).len() {
+                                    f(Case::sn("bullet", vec![b, d as i64, mid, l, 1, 1, 800, li as i64]));
+                                }
+                            }
+                        }
+                    }
+                }
+            }),
             Scope::new("bullets", "bullet x direction x {end, mid-line} x length x offset", move |f| {
                 for b in 0..3 {
                     for d in 0..8u8 {
@@ -531,7 +544,7 @@ impl Prop for C14 {
                 let mid = n[2] == 1;
                 let len = n[3] as usize;
                 let (dx, dy) = shapes::dir_step(d);
-                let lc = shapes::dir_line_char(d);
+                let lc = n.get(7).map(|i| line_chars_for(d)[*i as usize]).unwrap_or_else(|| shapes::dir_line_char(d));
                 let mut cv = shapes::line_with_head(d, lc, len, b);
                 if mid {
                     for i in 1..=len as i32 {
